@@ -75,7 +75,7 @@ def gen_case(rng, arm, tier, k=0):
     K = rng.randint(2, 3)
     d = rng.randint(1, 3)
     style = rng.choice(("generic", "lattice", "dups", "positive", "lattice", "zeros"))
-    metric = rng.choice(SYMMETRIC_SAFE if style in ("positive", "zeros") else ["euclidean", "squared_euclidean", "log_squared_euclidean", "manhattan", "chebyshev", "log_euclidean"])
+    metric = rng.choice((SYMMETRIC_SAFE + ["kullback_leibler", "neyman", "pearson", "k_divergence"]) if style in ("positive", "zeros") else ["euclidean", "squared_euclidean", "log_squared_euclidean", "manhattan", "chebyshev", "log_euclidean"])
     if style in ("lattice", "dups") and rng.random() < 0.3:
         metric = rng.choice(("canberra", "bray_curtis", "soergel", "squared_chord", "hellinger"))  # non-negative data with exact zeros
     nt = rng.randint(max(3, K), 10)
